@@ -278,10 +278,19 @@ def run_case(ctx, c):
         live.close()
 
 
+@st.composite
+def layout(draw):
+    c = draw(decl.layout_cases())
+    c["bad"] = [(v, None, draw(st.sampled_from(["ctor", "attrs"]))) for v in c["trees"]]
+    return c
+
+
 def run_shard(shard, ctx):
     if shard["k"] % 8 == 0:
         check_descriptors(ctx)
     run_given(ctx, cases(), lambda c: run_case(ctx, c), 150 if ctx.tier == "quick" else 1500)
+    # explicitly placed, out-of-order, possibly colliding layouts: pack() must raise a located PacketError exactly when bytes collide
+    run_given(ctx, layout(), lambda c: run_case(ctx, c), 100 if ctx.tier == "quick" else 1000, salt=1)
 
 
 def replay(case, ctx):
